@@ -14,19 +14,19 @@ T = {
   "Trusts harness/vexec (model, Observe/Diff). Clean shutdown only; vector equality policy of DESIGN.md 2.5."),
  "C05": ("vexec", "runtime monitoring: planted rejections + full read-out equality + reference-model oracle",
   "Calls that must be rejected (22 classes covering every failure cause named in the property, alone and as an item of a batch/import) are planted at random positions of generated histories; a rejected call must leave the complete public read-out identical, the index usable, and — after further history and a restart — the state equal to the model in which the call never happened. Held on the executions observed.",
-  "Which calls must be rejected is predicted by harness/vexec; a call is 'rejected' iff it returns a non-nil error."),
+  "Which calls must be rejected is predicted by harness/vexec; a call is 'rejected' iff it returns a non-nil error. A second part races 2-5 clients on the same new ids (single adds and batches) and index names: the loser is rejected and must leave nothing behind, now or after a restart."),
  "C06": ("vexec", "runtime monitoring: universal-negative result oracle over model-checked index states + race-detector run with concurrent writers/maintenance",
   "Index contents are produced by random operation histories (adds, batches, imports, deletes, re-adds, merges, evolve, vacuum, refine, compress, snapshot, compaction, restart) whose state is first compared with the reference model; then every index is queried through VSearch, VSearchGraph, VSearchWithScores, VFilter and text/hybrid search with generated queries, k, efSearch, filters and graph scopes. Every returned id must be live in the model, in the queried index, satisfy the reference filter evaluator, lie in the reference BFS scope, be unique, at most k, in non-increasing score order, and every score is recomputed from the stored vector / metadata. A second part repeats the membership / uniqueness / filter assertions under the race detector while writers, deleters, vacuum and refine run. Held on the executions observed.",
   "Completeness of the approximate search is not demanded (C07). Score tolerance per precision: 2e-4 float32, 1e-2 float16, 6e-2 int8 on the similarity 1/(1+d)."),
  "C10": ("vexec", "runtime monitoring: exhaustive short operation sequences + random engine histories against an edge-version reference model",
-  "The in-memory edge store is driven through ALL operation sequences up to length 3 (quick) / 4 (thorough) over a 39-letter alphabet with explicit timestamps and compared view by view with a version model (exhaustive over that bounded space); beyond it, random link/unlink/vacuum histories through the engine API with snapshot, compaction and plain restarts are compared at time 0 and at every history boundary. Exploration with an exhaustively enumerated core; held on what was enumerated/observed.",
+  "The in-memory edge store is driven through ALL operation sequences up to length 3 (quick) / 4 (thorough) over a 39-letter alphabet with explicit timestamps and compared view by view with a version model (exhaustive over that bounded space); beyond it, random link/unlink/vacuum histories through the engine API with snapshot, compaction and plain restarts are compared at time 0 and at every history boundary, and a group with a real retention window puts the prune boundary inside the history. Exploration with an exhaustively enumerated core; held on what was enumerated/observed.",
   "Incoming view = the engine-observable (hydrated) one, see DESIGN.md C10 scope note. Engine timestamps are clock-bracketed and bound by read-back."),
  "C12": ("vexec", "runtime monitoring with fault injection at hook points (held cascade + shutdown, crash images)",
-  "For generated graphs the delete cascade is interrupted at every kind of point it has (before it starts, after k steps, journal/apply gap of the delete, at its end) by engine shutdown or by taking a crash image of the data directory, then recovered; after settle, after recovery and after a further restart no current graph query may involve the deleted node unless it was linked again, and all other edges must equal the model. Fault enumeration over the cascade's step boundaries on explored graphs.",
+  "For generated graphs (the victim has edges in both directions, only outgoing, only incoming, only a self loop, or random ones) the delete cascade is interrupted at every kind of point it has (before it starts, after k steps, journal/apply gap of the delete, at its end) by engine shutdown or by taking a crash image of the data directory, then recovered; after settle, after recovery and after a further restart no current graph query may involve the deleted node unless it was linked again, and all other edges must equal the model. Fault enumeration over the cascade's step boundaries on explored graphs.",
   "Crash = process death modelled by a sparse copy of the data dir taken inside the process after an AOF flush; cascade progress observed through verifhook points."),
  "C02": ("vexec", "runtime monitoring with fault injection: crash images at hook points, torn log tails, crash during recovery; per-item oracle against the recorded model states",
   "While generated histories run, a hook handler copies the data directory (as a process death would leave it) at every step boundary of snapshot / compaction / index drop / import commit / delete cascade and at sampled journal/apply gaps of all mutating operations; images taken right after a writer flush are additionally torn at byte offsets inside the bytes just appended, and recovery itself is interrupted after a tail repair. Every recovered image must open, every item must equal a value it held between its durable floor and the operation in flight, the directory must be a fixed point under reopen and under further writes + restart. Fault enumeration over the reachable hook points of explored histories.",
-  "Crash model = process death (page-cache contents, user-space buffers lost). Durable floors derived from the documented flush behaviour. D36 (crash inside VCompress) is a recorded known finding with a guard."),
+  "Crash model = process death (page-cache contents, user-space buffers lost). Durable floors derived from the documented flush behaviour. A dedicated matrix images every hook point inside VCompress from six kinds of persistent pre-state; a hand-built image covers the blank first arena chunk; recovered directories must additionally carry deletions + a compaction across a restart. Images from a goroutine that runs beside its operation (arena removal of VDeleteIndex) are taken only while the operation is parked."),
  "C08": ("vexec", "runtime monitoring: reference filter evaluator over generated metadata histories in several provenances",
   "A from-scratch evaluator of the documented filter semantics is compared with VFilter (set equality) and VSearch-with-filter (subset) on generated OR-of-AND expressions after generated update histories (type changes, merges, deletes, re-adds, vacuum), in every provenance of the same logical state: live, log replay, compaction + restart, snapshot + restart, after compression, and after further updates on the restored state.",
   "Numeric-looking strings, non-float64 Go numbers and keywords inside quoted literals are a lenient class (counted, not asserted): the property does not settle them."),
@@ -41,28 +41,28 @@ T = {
   "The product reads time.Now().Unix(); the oracle brackets each call with the same clock and never places a case near a threshold."),
  "C16": ("http", "runtime monitoring: state-based oracles over the full HTTP handler chain for every parsed route x token x hostile name",
   "The route table is parsed from the current source; every route is driven with read / write / admin tokens restricted to namespaces, hostile resource names and index-carrying body fields. Oracles compare full state digests: a read token never changes state, a write token never administers, a namespace-restricted token never reads or changes another index; forged, altered (every byte), expired, revoked tokens are never served; issue/revoke survive restarts.",
-  "Seven recorded known findings (role from path suffix, _sys_auth KV exposure, admin not enforced, namespace taken from another field, auth state outside the journal, escaped path segments, graph id ambiguity) with probes and narrow guards, pending repair patches."),
+  "The seven defects it found (role from path suffix, _sys_auth KV exposure, admin not enforced, namespace taken from another field, auth state outside the journal, escaped path segments, graph id ambiguity) are repaired in the repository; their probes run unguarded as regression cases."),
  "C17": ("http", "runtime monitoring: gateway driven with a stub embedder of designed distances and a counting upstream",
   "Prompts are mapped to unit vectors at designed distances (<= T/2 or >= 2T) from forbidden prompts and cached queries; the reference decision (deny pattern on the latest user message or semantic proximity => 4xx and upstream untouched; cache hit only within distance and TTL, never for streaming; invalidation removes exactly the answers citing the document) is compared with what the real proxy does, counting upstream round trips.",
-  "Embedder and upstream are stubs. Seven recorded known findings (threshold direction, task-marker bypass, invalidation) with probes and guards, pending repair patches."),
+  "Embedder and upstream are stubs. The defects it found (threshold direction, task-marker bypass, invalidation, expired-entry shadowing, orphaned cache entry after a racing cleanup) are repaired in the repository; their probes run unguarded."),
  "C19": ("http", "runtime monitoring: systematic JSON mutation of every data-plane route with panic-hook, digest, limit and confinement oracles",
   "Valid request templates are derived by reflection from the handlers' request types and mutated (missing fields, every other JSON type, null, huge/negative numbers, deep nesting, non-JSON, hostile names); the panic-recovery hook must never fire, responses must be well formed, non-JSON / wrong-typed bodies get 4xx, a 4xx leaves the state digest unchanged, published limits are enforced, and nothing outside the data directory changes (sentinel tree), also after restart.",
-  "Requests are sequential (concurrency is C13). Seven recorded known findings (path escape via index names, process-fatal negative ef values, ...) with probes and guards, pending repair patches."),
+  "Requests are sequential (concurrency is C13). Duration fields are typed (string or number). The defects it found (path escape via index names, process-fatal negative ef values, ...) are repaired in the repository; their probes run unguarded."),
  "C03": ("pure", "runtime monitoring with fault enumeration: codec round trips + byte-level damage of real log files followed by engine recovery",
   "Generated commands (nil / empty / binary arguments biased to CR, LF, NUL, '$', '*', 0xA5) and vectors (all float32 classes; thorough: all 2^32 bit patterns through the hex codec) must round-trip byte for byte; logs of self-identifying commands written with the real writer are damaged (bit flips, 0xA5 injection, overwrites, deletions, insertions, truncation; thorough: every byte x 3 damages and every cut of small logs) and reopened: nothing fabricated or garbled, original order, every untouched frame after the damage applied, Open refuses only without a leading frame marker, allocation bounded.",
   "The embedded-valid-frame swallow case is excluded as the property states. Allocation bound = documented 1 GB frame cap x candidate frame markers + 64 MB."),
  "C07": ("vexec", "runtime monitoring: brute-force oracle in the exact regime, calibrated recall floors and structural invariant walker in the large regime",
   "In the regime where the base layer is fully connected (<= 2M nodes incl. unvacuumed deletions) every k-NN answer after every operation of generated histories (adds, batches, imports, deletes, vacuum, refine, compress, restart) must equal the brute-force top-k distance multiset, for all efSearch; on fixed seed-determined batches of 1000-3000 vectors mean recall@10 and self-retrieval must stay above floors calibrated on this tree (min over 10 seeds and all stages minus 0.10, capped at 0.85) at every maintenance stage; graph invariants (degree bounds, no dangling / self links, live entry point, reachability) are walked after each step.",
-  "Floors are empirical (regression detectors, not a recall guarantee) and currently include the recorded findings D-C07-1..5 (probes + guards) pending repair and recalibration."),
+  "Floors are empirical (regression detectors, not a recall guarantee); they were recalibrated over 30 seeds after the five HNSW defects the check found were repaired (evidence/calibration)."),
  "C13": ("vexec", "Go race detector + stress workloads with randomised yields at hook points + porcupine linearizability check + lost-update counters + deadlock witness from goroutine dumps",
-  "Four workload shapes (client mix; + admin goroutine cycling snapshot / compaction / vacuum / refine / graph vacuum; + index create / import / compress / drop and three kinds of event subscribers; + Close in the middle) with 4-24 clients on shared items run in a -race build with seed-determined sleeps and yields at every hook point and GOMAXPROCS in {2,4,16}. Oracles: no race report in kektordb frames, no panic / fatal error, deadlock only with a dump witness, every acknowledged reinforcement counted, every acknowledged concurrently merged metadata key present, the recorded KV history linearizable per key (porcupine), consistent id maps, state identical after restart, clean failure and durability after Close.",
+  "Four workload shapes on indexes of which one carries an auto-link rule (nested link per add), with never-read subscribers added and fresh indexes created and first filled under load throughout (client mix; + admin goroutine cycling snapshot / compaction / vacuum / refine / graph vacuum; + index create / import / compress / drop and three kinds of event subscribers; + Close in the middle) with 4-24 clients on shared items run in a -race build with seed-determined sleeps and yields at every hook point and GOMAXPROCS in {2,4,16}. Oracles: no race report in kektordb frames, no panic / fatal error, deadlock only with a dump witness, every acknowledged reinforcement counted, every acknowledged concurrently merged metadata key present, the recorded KV history linearizable per key (porcupine), consistent id maps, state identical after restart, clean failure and durability after Close.",
   "Interleavings are those the scheduler produces here; evidence reports the number of distinct cross-goroutine adjacent hook-point pairs observed. rr is unavailable, so a schedule cannot be replayed (the seed reproduces the operation lists)."),
  "C14": ("vexec", "runtime monitoring with forced schedules (hook gates) + ownership protocol under concurrent admin operations + writer contract",
-  "The complete table of 264 forced schedules {write op} x {SaveSnapshot, RewriteAOF} x {phase boundary} x {write parked between journal and apply | write issued while the admin op is parked} is driven with hook gates; concurrently owned items with increasing sequence numbers are written while snapshots and compactions (also overlapping, also auto-triggered) run; the lazy writer's Flush / Sync / Close / snapshot-mode contract is checked with an atomic acknowledgement counter. After restart every acknowledged write must be present.",
+  "The complete table of 456 forced schedules {write op, 8 of the 19 being compound sequences on one item} x {SaveSnapshot, RewriteAOF} x {phase boundary} x {write parked between journal and apply | write issued while the admin op is parked} is driven with hook gates; concurrently owned items with increasing sequence numbers are written while snapshots and compactions (also overlapping, also auto-triggered) run; the lazy writer's Flush / Sync / Close / snapshot-mode contract is checked with an atomic acknowledgement counter, free-running and with a forced backlog (writer goroutine parked at its flush point while N writes are acknowledged and the control call is issued). After restart every acknowledged write must be present.",
   "Schedule table enumerated completely (exhaustive over that finite table); free-running parts are exploration. Gates use verifhook points."),
  "C18": ("pure", "runtime monitoring: float64 reference kernels with derived tolerances, guard-page overread detection, quantizer laws, arena shadow model under the race detector",
   "Every dispatched distance kernel is compared with a float64 reference over 16 dimensions x 12 magnitude classes with operands placed against a PROT_NONE page (also in a -race/checkptr build); quantizer training percentile, clipping (never wrapping) and round-trip bounds; float16 conversion vs an independent implementation; VGet / scores around VCompress and restart within per-pair derived bounds; the mmap arena is driven directly (alloc / free / reuse / compaction cycles / state save+load / reopen) against a shadow map of content stamps, with concurrent readers under the race detector.",
-  "Pure-Go build on amd64 only. D-C18-1 (latent compactor interleaving defect, unreachable through the product today) is a recorded known finding with a guard."),
+  "Pure-Go build on amd64 only. The two arena-compactor defects it found are repaired; the engine part re-checks values and distances of earlier vectors after a late insert following compression and restart."),
  "C20": ("pure", "runtime monitoring: total/deterministic/bounded oracles over generated strings and chunk graphs",
   "Hostile strings (invalid UTF-8, mixed scripts, 100 KB words, stemmer-rule vocabularies read from the sources) through analysers, compressor, every splitter strategy x sizes x overlaps and the fixed chunker: no panic, same output twice, no non-whitespace content lost, chunk length <= size+overlap, negations/connectives preserved; adaptive retrieval over a counting stub store on generated chunk graphs (cycles, hubs): token budget, depth limit, node cap and termination checked against a reference BFS.",
   "Content preservation is rune-exact for valid UTF-8 and byte-exact for invalid input."),
